@@ -17,7 +17,7 @@ cc = N.callers_of(trees, ft)
 for q, (node, mname, cls) in sorted(ft.items()):
     funcs[q] = {'fp': N.fingerprint(node), 'fpl': N.fingerprint(node, True),
                 'cls': cls, 'nargs': len(node.args.args),
-                'callers': cc.get(q, [])}
+                'callers': cc.get(q, []), 'src': ast.unparse(node)}
 attrs = {k: sorted(v) for k, v in sorted(N.class_attrs(trees).items())}
 json.dump({'functions': funcs, 'attrs': attrs},
           open(os.path.join(V, 'h2verif', 'spec', 'known_fingerprints.json'), 'w'),
